@@ -59,6 +59,9 @@ func VerifH_C10_podOutcome() {
 		pod.Status.StartTime = &t
 	}
 	if vz.Bool("deadlineExceeded") {
+		// kubelet contract: the active deadline is measured from status.startTime, so a
+		// Pod failed with DeadlineExceeded has a start time
+		vz.Assume(pod.Status.StartTime != nil)
 		pod.Status.Reason = "DeadlineExceeded"
 		if vz.Bool("hasActiveDeadline") {
 			pod.Spec.ActiveDeadlineSeconds = pointer.Int64(vz.IntRange("activeDeadline", 0, 1<<20))
@@ -69,7 +72,11 @@ func VerifH_C10_podOutcome() {
 		pod.DeletionTimestamp = &t
 	}
 	oom := false
-	n := vz.Choice("ncontainers", 3)
+	maxc := 1
+	if vz.Thorough() {
+		maxc = 2
+	}
+	n := vz.Choice("ncontainers", maxc+1)
 	for i := 0; i < n; i++ {
 		tag := []string{"c0", "c1"}[i]
 		cs := corev1.ContainerStatus{Name: tag}
